@@ -309,6 +309,21 @@ pub fn parse_currency_non_commodity(input: &str) -> Result<String, ParseError> {
 
 /// Parse amount with optional decimal places
 pub fn parse_amount(input: &str) -> Result<f64, ParseError> {
+    // SWIFT amounts are plain decimals: digits, at most one decimal separator, at least one
+    // integer digit. `str::parse::<f64>` alone would also take NaN, inf, exponents and signs.
+    let mut separators = 0;
+    for (i, b) in input.bytes().enumerate() {
+        let is_separator = (b == b',' || b == b'.') && i > 0;
+        if is_separator {
+            separators += 1;
+        }
+        if !(b.is_ascii_digit() || is_separator) || separators > 1 {
+            return Err(ParseError::InvalidFormat {
+                message: format!("Invalid amount format: {}", input),
+            });
+        }
+    }
+
     // Remove any commas (European decimal separator handling)
     let normalized = input.replace(',', ".");
 
